@@ -4,7 +4,7 @@
 # compiles, existing suite passes, demo FAILs with the change and PASSes without.  On success stores it in /verif/seeded/.
 set -u
 P=$1; X=$2
-SRC=/tmp/sa/out/$P/$X
+SRC=${SEED_ROOT:-/tmp/sa/out}/$P/$X
 WT=/tmp/confirm_$P$X
 OUT=/verif/seeded/$P$X
 LOG=/tmp/confirm_$P$X.log
